@@ -1121,7 +1121,7 @@ PROPS = {
              " HTTP/1.1 CONNECTs are sent authority-form, origin-form (`CONNECT /` with the authority in Host) and absolute-form: the destination is the same authority - without a port it is refused whatever the form"
              " OS errors of the outbound connect: 11 error numbers (ENETUNREACH, EHOSTUNREACH, EHOSTDOWN, ENETDOWN, ETIMEDOUT, ECONNREFUSED, ...) x CONNECT to an IPv4 and an IPv6 literal and a plain-HTTP GET through the real direct forwarder, compared with connErrOfErrno (whose lists the translator reads from io_to_connection_error; theorem os_error_codes)"
              " User-Agent of the session: absent, ASCII, UTF-8 text, bytes that are no text (the value is handed to the forwarder when it is text): the answer does not depend on it; sessions with near-miss ping markers as for C01",
-        explanation="os_error_codes (lists regenerated from io_to_connection_error); theorems exactly_one_final, codes_documented, outcome_codes, socks_upstream_codes, connect_result, reserved_never_resolved, "
+        explanation="os_error_codes (lists regenerated from io_to_connection_error); theorems exactly_one_final, failed_connect_never_200, at_most_one_connect_attempt, codes_documented, outcome_codes, socks_upstream_codes, connect_result, reserved_never_resolved, "
                     "lookalikes_are_hosts, connect_without_port_refused, health_and_mux_accepted about TT/Model/Dispatch.lean with "
                     "statusOf / warnOf / reserved names regenerated from http_downstream.rs on every run",
         trusted=["authority parsing (http::uri::Authority::port_u16 / host, SocketAddr::from_str): the parsed view is a model input",
